@@ -26,6 +26,53 @@ def rng_parts(r):
 ITER_SHRINKERS = ("take_while", "skip_while", "filter", "skip", "take", "rev", "copied", "cloned", "map_while", "step_by", "peekable", "enumerate")
 
 
+def prefix_taker(sk, pid):
+    """Does the parser return, as its value, exactly the prefix of its input that it consumed
+    (len(value) + len(remainder) = len(input))?  True for take_while by its contract (rule PR); for a direct parser it is
+    proved on every accepting path: the value is input[..e] / input[0..e] / input.split_at(e).0 with
+    e = len(input) - len(remainder) entailed by the slice-length facts of the path."""
+    if not pid:
+        return False
+    if pid[0] == "take_while":
+        return True
+    if pid[0] != "fn":
+        return False
+    key = ("prefix_taker", pid)
+    if key in sk.memo:
+        return sk.memo[key]
+    sk.memo[key] = False          # recursion guard
+    f = sk.fns.get(pid[1])
+    ok = False
+    if f is not None and f.get("inp") is not None:
+        inp = f["inp"]
+        sl = SliceLin(sk, f["ps"], inp)
+        n = 0
+        ok = True
+        for x in f["exits"]:
+            r = sk.exit_result(x)
+            if not (r and r[0][0] == "ok"):
+                continue
+            n += 1
+            val, rem = S(sk.val_of(r[0][1])), S(sk.rem_of(r[0][1]))
+            e = None
+            if val[0] == "index" and val[1] == inp:
+                k, a, b = rng_parts(val[2])
+                if k == "RangeTo" or (k == "Range" and a == ("lit", "int", 0)):
+                    e = b
+            elif val[0] == "tproj" and val[2] == 0 and val[1][0] == "call" and val[1][1].endswith("::split_at") and len(val[1][2]) == 2 and val[1][2][0] == inp:
+                e = val[1][2][1]
+            if e is None:
+                ok = False
+                break
+            facts = sl.premises(x) + sl.cond_facts(x) + sl.slice_facts(rem, x) + [fm.ge0(sl.ln(rem))]
+            if not all(fm.entails(facts, g) for g in fm.eq(sl.L(e) + sl.ln(rem), sl.ln(inp))):
+                ok = False
+                break
+        ok = ok and n > 0
+    sk.memo[key] = ok
+    return ok
+
+
 class SliceLin:
     """Fallback for the arithmetic, slicing and split_at sites of parser functions that the shape rules L1-L6 do not match
     (a bound kept in a local, a count taken with an iterator adaptor ...): the obligation is proved by Fourier-Motzkin
@@ -130,7 +177,7 @@ class SliceLin:
                         f.append(fm.le(lx + Lin({}, 1), ls))
                     else:
                         f.append(fm.le(lx, ls))
-                elif X[2] == 1 and (pid[0] == "take_while" or (pid[0] == "fn" and pid[1] in (P + "program_mnemonic", P + "digits"))):
+                elif X[2] == 1 and prefix_taker(self.sk, pid):
                     f += fm.eq(lx + self.ln(rem), ls)
                     f += [fm.ge0(self.ln(rem))]
                     f += self.slice_facts(rem, x, depth + 1)
